@@ -397,6 +397,17 @@ func init() {
 		"strings.Compare": func(i *interp, caller *frame, fn *ssa.Function, args []value) value {
 			return i.cmp3(args[0], args[1])
 		},
+		"internal/bytealg.MakeNoZero": func(i *interp, caller *frame, fn *ssa.Function, args []value) value {
+			n, ok := constInt(args[0])
+			if !ok || n < 0 || n > i.cfg.MaxAlloc {
+				unsupported("MakeNoZero with symbolic or large length")
+			}
+			r := make([]value, n)
+			for k := range r {
+				r[k] = i.ctx.BV(8, 0)
+			}
+			return r
+		},
 		"internal/bytealg.Compare": func(i *interp, caller *frame, fn *ssa.Function, args []value) value {
 			return i.cmp3(i.bytesToStr(args[0]), i.bytesToStr(args[1]))
 		},
@@ -538,6 +549,12 @@ func init() {
 		"github.com/gnolang/gno/tm2/pkg/amino.GetCallersDirname":     func(i *interp, caller *frame, fn *ssa.Function, args []value) value { return "" },
 		"github.com/gnolang/gno/tm2/pkg/amino.NewCodec": func(i *interp, caller *frame, fn *ssa.Function, args []value) value {
 			return (*value)(nil)
+		},
+		"github.com/gnolang/gno/tm2/pkg/amino.GetTypeURL": func(i *interp, caller *frame, fn *ssa.Function, args []value) value {
+			if x, ok := args[0].(iface); ok && x.t != nil {
+				return "/verif." + x.t.String()
+			}
+			return "/verif.nil"
 		},
 		// codec set-up calls made from package initialisers (the codec itself is never executed)
 		"(*github.com/gnolang/gno/tm2/pkg/amino.Codec).Seal":            func(i *interp, caller *frame, fn *ssa.Function, args []value) value { return args[0] },
